@@ -88,6 +88,116 @@ def to_legacy_opcodes(mb):
     return bytes(flatbuffer_utils.convert_object_to_bytearray(m))
 
 
+def with_int_branch(case, rng):
+    """the same case with an INTEGER data branch next to the float graph (counts / lengths / ids that are averaged, added, transposed or
+    concatenated -- all legal on INT32 in the runtime): one more INT32 signature input, one or two operators of quantizable KINDS on it,
+    its INT32 result exported. Non-float tensors are never quantized, whatever rule covers those operators."""
+    import numpy as np
+    from ai_edge_litert import schema_py_generated as s
+    m = flatbuffer_utils.read_model_from_bytearray(bytearray(case.mb))
+    if not m.signatureDefs:
+        return case
+    sd = m.signatureDefs[0]
+    sg = m.subgraphs[sd.subgraphIndex]
+    names = {t.name for t in sg.tensors}
+    BO, TT = s.BuiltinOperator, s.TensorType
+
+    def tensor(base, shape, data=None):
+        k = 0
+        while (base + str(k)).encode() in names:
+            k += 1
+        t = s.TensorT()
+        t.name = (base + str(k)).encode()
+        names.add(t.name)
+        t.shape = list(shape)
+        t.type = TT.INT32
+        if data is None:
+            t.buffer = 0
+        else:
+            b = s.BufferT()
+            b.data = np.frombuffer(np.asarray(data, np.int32).tobytes(), dtype=np.uint8)
+            m.buffers.append(b)
+            t.buffer = len(m.buffers) - 1
+        sg.tensors.append(t)
+        return len(sg.tensors) - 1
+
+    def opcode(code):
+        for i, oc in enumerate(m.operatorCodes):
+            if max(oc.builtinCode, oc.deprecatedBuiltinCode) == code:
+                return i
+        oc = s.OperatorCodeT()
+        oc.builtinCode = code
+        oc.deprecatedBuiltinCode = min(code, 127)
+        oc.version = 1
+        m.operatorCodes.append(oc)
+        return len(m.operatorCodes) - 1
+
+    def op(code, ins, outs, otype=None, opts=None):
+        o = s.OperatorT()
+        o.opcodeIndex = opcode(code)
+        o.inputs, o.outputs = list(ins), list(outs)
+        if otype is not None:
+            o.builtinOptionsType, o.builtinOptions = otype, opts
+        sg.operators.append(o)
+
+    f = rng.randint(2, 4)
+    x = tensor("counts", [1, f])
+    cur, shp, kinds = x, [1, f], []
+    for _ in range(rng.randint(1, 2)):
+        kind = rng.choice(["MEAN", "MEAN", "ADD", "TRANSPOSE", "CONCATENATION"])
+        if kind == "MEAN" and shp[-1] > 1 and len(shp) == 2:
+            ax = tensor("count_axis", [1], data=[1])
+            y = tensor("count_mean", [shp[0], 1])
+            opts = s.ReducerOptionsT()
+            opts.keepDims = True
+            op(BO.MEAN, [cur, ax], [y], s.BuiltinOptions.ReducerOptions, opts)
+            cur, shp = y, [shp[0], 1]
+        elif kind == "ADD":
+            c = tensor("count_offset", shp, data=np.array([rng.randint(0, 3) for _ in range(shp[0] * shp[1])]).reshape(shp))
+            y = tensor("count_sum", shp)
+            opts = s.AddOptionsT()
+            op(BO.ADD, [cur, c], [y], s.BuiltinOptions.AddOptions, opts)
+            cur = y
+        elif kind == "TRANSPOSE":
+            perm = tensor("count_perm", [2], data=[1, 0])
+            y = tensor("count_t", [shp[1], shp[0]])
+            op(BO.TRANSPOSE, [cur, perm], [y], s.BuiltinOptions.TransposeOptions, s.TransposeOptionsT())
+            cur, shp = y, [shp[1], shp[0]]
+        elif kind == "CONCATENATION":
+            y = tensor("count_cat", [shp[0], shp[1] * 2])
+            opts = s.ConcatenationOptionsT()
+            opts.axis = 1
+            op(BO.CONCATENATION, [cur, cur], [y], s.BuiltinOptions.ConcatenationOptions, opts)
+            cur, shp = y, [shp[0], shp[1] * 2]
+        else:
+            continue
+        kinds.append(kind)
+    if not kinds:
+        return case
+    sg.inputs = list(sg.inputs) + [x]
+    sg.outputs = list(sg.outputs) + [cur]
+    arg = "counts_in"
+    tm = s.TensorMapT()
+    tm.name, tm.tensorIndex = arg.encode(), x
+    sd.inputs.append(tm)
+    tm = s.TensorMapT()
+    tm.name, tm.tensorIndex = b"counts_out", cur
+    sd.outputs.append(tm)
+    case.mb = bytes(flatbuffer_utils.convert_object_to_bytearray(m))
+    key = sd.signatureKey.decode()
+    r = np.random.RandomState(rng.randrange(2 ** 31))
+    for d in (case.data, getattr(case, "dry_data", None)):
+        if d and key in d:
+            for smp in d[key]:
+                smp[arg] = r.randint(0, 5, size=[1, f]).astype(np.int32)
+    for sgi in case.info["subgraphs"]:
+        if sgi.get("sig") == key or len(case.info["subgraphs"]) == 1:
+            sgi["ops"] = list(sgi["ops"]) + kinds
+            break
+    case.info["tags"].add("integer_data_branch")
+    return case
+
+
 def gen_case(rng, i, **kw):
     case = _gen_case(rng, i, **kw)
     if LEGACY_OPCODES[0] and rng.random() < LEGACY_OPCODES[0]:
